@@ -2400,6 +2400,9 @@ class Wallet(object):
         fullpath = path_expand(path, key_path, level_offset_key, account_id=account_id, cosigner_id=cosigner_id,
                                purpose=purpose, address_index=address_index, change=change,
                                witness_type=witness_type, network=network)
+        if "account'" in key_path and key_path.index("account'") < len(fullpath):
+            # The account named in the path takes precedence over the (default) account argument
+            account_id = int(fullpath[key_path.index("account'")].strip("'"))
 
         if self.multisig and self.cosigner:
             public_keys = []
